@@ -64,6 +64,21 @@ def real_admits(regex_text, stream, n):
     return regex.fullmatch("(?:" + regex_text + ")" + regex.escape(stream[n:], literal_spaces=True), stream, timeout=60) is not None
 
 
+def _mem_operand(w, reg):
+    cols = w.colours
+    ch = lambda t: w.chars([ord(c) for c in t], cols)
+    lit = lambda t: w.lit(t, cols)
+    opt = lambda r: z3.Option(r)
+    disp = z3.Concat(opt(lit("-")), rx.union([z3.Concat(lit("0x"), z3.Plus(ch("0123456789abcdef"))), z3.Plus(ch("0123456789"))]))
+    return rx.concat([lit("["), opt(reg), opt(rx.concat([lit("+"), reg, lit("*"), ch("1248")])), opt(z3.Concat(lit("+"), disp)), lit("]")])
+
+
+def _operand_fields_domain(w, bad):
+    """streams in which no operand field (text between two commas) is in `bad`"""
+    cols = w.colours
+    return comp(rx.concat([w.ANY, w.lit(",", cols), bad, w.lit(",", cols), w.ANY]))
+
+
 def att_mem_domain(w):
     """Input domain of the $deref properties (C03 deref part, C06): an operand field that contains any of
     '[', ']', '+', '*' is a memory operand as the operand normaliser emits it for objdump AT&T text (C09):
@@ -71,15 +86,36 @@ def att_mem_domain(w):
     Streams outside this domain (register without '%', '0x0x8', ...) are not objdump output."""
     cols = w.colours
     ch = lambda t: w.chars([ord(c) for c in t], cols)
-    lit = lambda t: w.lit(t, cols)
-    opt = lambda r: z3.Option(r)
-    reg = z3.Concat(lit("%"), z3.Plus(ch("abcdefghijklmnopqrstuvwxyz0123456789")))
-    disp = z3.Concat(opt(lit("-")), rx.union([z3.Concat(lit("0x"), z3.Plus(ch("0123456789abcdef"))), z3.Plus(ch("0123456789"))]))
-    mem = rx.concat([lit("["), opt(reg), opt(rx.concat([lit("+"), reg, lit("*"), ch("1248")])), opt(z3.Concat(lit("+"), disp)), lit("]")])
+    reg = z3.Concat(w.lit("%", cols), z3.Plus(ch("abcdefghijklmnopqrstuvwxyz0123456789")))
     fch = w.chars([c for c in w.alphabet if chr(c) not in ",|"], cols)
     special = z3.Concat(z3.Star(fch), ch("[]+*"), z3.Star(fch))
-    badfield = inter(special, comp(mem))
-    return comp(rx.concat([w.ANY, lit(","), badfield, lit(","), w.ANY]))
+    return _operand_fields_domain(w, inter(special, comp(_mem_operand(w, reg))))
+
+
+def _reg_vocab(w):
+    from .spec import X86_REGS
+
+    return rx.union([w.lit("%" + r, w.colours) for r in X86_REGS])
+
+
+def regs_domain(w):
+    """Input domain of the register-family capture templates (C05): every non-empty operand field is an
+    x86-64 general-purpose register name as objdump prints it (%rax ... %r15b) or a small immediate."""
+    cols = w.colours
+    vocab = rx.union([_reg_vocab(w), w.lit("0x1", cols), w.lit("1", cols)])
+    fch = w.chars([c for c in w.alphabet if chr(c) not in ",|"], cols)
+    return _operand_fields_domain(w, inter(z3.Plus(fch), comp(vocab)))
+
+
+def att_mem_regs_domain(w):
+    """registers, small immediates, or memory operands over those registers"""
+    cols = w.colours
+    vocab = rx.union([_reg_vocab(w), w.lit("0x1", cols), w.lit("1", cols), _mem_operand(w, _reg_vocab(w))])
+    fch = w.chars([c for c in w.alphabet if chr(c) not in ",|"], cols)
+    return _operand_fields_domain(w, inter(z3.Plus(fch), comp(vocab)))
+
+
+DOMAINS = {"att_mem": att_mem_domain, "regs": regs_domain, "att_mem_regs": att_mem_regs_domain}
 
 
 def check_template(tpl):
@@ -141,8 +177,8 @@ def check_template(tpl):
                 S1, S2 = M.sigma((1,)), M.sigma((2,))
                 K2 = z3.Star(S2)
                 WF12 = inter(sM.WF((1, 2)), z3.Concat(z3.Star(S1), K2))
-                if tpl.get("domain") == "att_mem":
-                    WF12 = inter(WF12, att_mem_domain(M))
+                if tpl.get("domain"):
+                    WF12 = inter(WF12, DOMAINS[tpl["domain"]](M))
                 LM = tM.lang(east, K2, (1,), (1, 2))
             if "AEM" in lem or "TWIN" in lem:
                 SM = sM.seq(pattern, K2, (1,))
